@@ -84,15 +84,16 @@ BOUNDS = {
                      value="scalar, selection shape, size-1 axes, missing leading axes, one extra leading axis"),
 }
 
-# NOTE (findings on the tree this harness was written against, see the report): every obligation declares 0/1 model variables that name
-# the regions of three defects so that a known-finding predicate can single them out:
-#   int_before_neg  = 1 iff an integer index precedes a negative-step slice (setitem_array indexes the VALUE axes with ARRAY positions)
-#   neg_empty_full  = 1 iff a negative-step slice selects nothing and the value carries that axis with its full (zero) length
-#   lead_with_int   = 1 iff the value has more axes than the selection but not more than the array (extra leading size-1 axis + integer index)
-#   empty_big_value = 1 iff some slice selects nothing and some value axis is longer than 1 (NumPy: no-op, dask: ValueError)
-#   fancy[...] only: int_before_list_full = 1 iff an integer index precedes the 1-d list / mask indexer and the value has that axis with length > 1
-#                    dask_mask_one = 1 iff the indexer is a dask boolean mask and the value has that axis with length 1 (only the first selected
-#                    element is assigned)
+# NOTE (findings made with this harness, see known_findings.json):
+#  * recorded, not repaired: assigning to an EMPTY selection a value that has an axis longer than 1 (x[0:0, :] = np.arange(4)) raises ValueError
+#    although NumPy accepts the no-op (setitem_array: 'Empty slices can only be assigned size 1 values').  Every set*[...] obligation declares
+#    the 0/1 model variable empty_big_value (1 iff some slice selects nothing and some value axis is longer than 1) so that the known-finding
+#    predicate "empty_big_value == 1" names exactly that region; nothing is carved out of the checks themselves.
+#  * repaired in /repo after this harness reported them: an integer index before a negative-step slice indexed the value axes with array
+#    positions (x[0, ::-1] = 5 raised IndexError, 3-d: wrong values); an empty negative-step selection had a negative implied length
+#    (x[0:2:-1] = np.array([]) raised); a value with an extra leading size-1 axis next to an integer index failed at compute time
+#    (x[0, 0:4] = [[...]]); witnesses: integer index before a list / mask indexer raised TypeError (x[0, [0, 2]] = [10, 20]); a size-1 value
+#    through a dask boolean mask only reached the first selected element.
 
 
 def functions():
@@ -293,14 +294,7 @@ def mk_set(kinds, nbs, steps, maxc, minc, pad, cfgs=None, short=False, int_oob=T
         lens = {ax: L_len(e, dims[ax], inds[ax]) for ax in sel_axes}
         vaxes = [sel_axes[n_sel - nv + t] for t in range(nv)]          # array axis of every trailing value axis
         vshape = (1,) * lead + tuple(1 if modes[t] == "1" else lens[vaxes[t]] for t in range(nv))
-        # model variables naming the regions of the recorded defects (see NOTE above)
-        neg_axes = [ax for ax in sel_axes if (steps[ax] or 1) < 0]
-        ibn = e.int("int_before_neg", 0, 1)
-        e.assume(lambda: (ibn == 1) == any(kinds[b] == "i" for ax in neg_axes for b in range(ax)))
-        nef = e.int("neg_empty_full", 0, 1)
-        e.assume(lambda: (nef == 1) == _any([lens[vaxes[t]] == 0 for t in range(nv) if modes[t] == "f" and vaxes[t] in neg_axes]))
-        lwi = e.int("lead_with_int", 0, 1)
-        e.assume(lambda: (lwi == 1) == (lead + nv > n_sel and lead + nv <= nd))
+        # model variable naming the region of the recorded finding (see NOTE above)
         ebv = e.int("empty_big_value", 0, 1)
         e.assume(lambda: (ebv == 1) == (_any([lens[ax] == 0 for ax in sel_axes]) & _any([n > 1 for n in vshape])))
         return lss, dims, inds, ps, cfg, vshape
@@ -348,6 +342,11 @@ def mk_set(kinds, nbs, steps, maxc, minc, pad, cfgs=None, short=False, int_oob=T
             e.check(t[1] == ("x",) + c, f"block {c}: setitem reads another block")
             e.check(isinstance(t[2], tuple) and t[2] in dsk and dsk[t[2]][0] == "VALUE", f"block {c}: value piece is not in the graph")
             e.check(isinstance(t[3], list) and len(t[3]) == nd, f"block {c}: needs one block index per axis")
+            for ax in range(nd):
+                if kinds[ax] == "i":
+                    bi, bl = t[3][ax], lss[ax][c[ax]]
+                    e.check(isinstance(bi, (int, SInt)) and not isinstance(bi, bool), "integer index became a non-integer block index")
+                    e.check(lambda: (bi >= -bl) & (bi < bl), f"block {c}: integer block index outside the block (IndexError at compute time)")
         # ---- p's block ----------------------------------------------------------------------------------
         where = [locate(lss[ax], ps[ax]) for ax in range(nd)]
         c = tuple(w[0] for w in where)
@@ -363,8 +362,7 @@ def mk_set(kinds, nbs, steps, maxc, minc, pad, cfgs=None, short=False, int_oob=T
         for ax in range(nd):
             bi = bidx[ax]
             if kinds[ax] == "i":
-                e.check(isinstance(bi, (int, SInt)) and not isinstance(bi, bool), "integer index became a non-integer block index")
-                r.append(e.ite(lambda: bi == loc[ax], 0, -1))
+                r.append(e.ite(lambda: e.ite(lambda: bi < 0, bi + blen[ax], bi) == loc[ax], 0, -1))
                 cnt.append(None)
             else:
                 e.check(isinstance(bi, slice), "slice index became a non-slice block index")
@@ -444,7 +442,7 @@ def mk_set(kinds, nbs, steps, maxc, minc, pad, cfgs=None, short=False, int_oob=T
             if got.shape != want.shape or not (got == want).all():
                 raise Violation(f"x[{index}] = <{what} of shape {vshape}> on chunks {lss}: dask {got.tolist()} numpy {want.tolist()}")
         # extra witnesses (NumPy code paths, no solver claim): the first slice axis as integer list / boolean mask / dask mask
-        if sel_axes and sel_axes[0] == 0 and sum(model.values()) % 3 == 0:
+        if sel_axes and sum(model.values()) % 3 == 0:
             ax = sel_axes[0]
             pos = list(range(dims[ax]))[inds[ax]]
             full = list(inds) if not short else [inds[0], slice(None)]
@@ -455,8 +453,6 @@ def mk_set(kinds, nbs, steps, maxc, minc, pad, cfgs=None, short=False, int_oob=T
                 alts.append(("boolean mask", mask))
                 alts.append(("dask boolean mask", da.from_array(mask, chunks=1)))
             for what, alt in alts:
-                if what == "dask boolean mask" and len(vshape):
-                    continue        # dask masks with array values: see fancy[...] (unknown selection size)
                 idx2 = tuple(alt if a == ax else full[a] for a in range(nd))
                 want2 = x0.copy()
                 try:
@@ -491,9 +487,6 @@ def mk_parse(step, kind, maxdim, pad):
         p = e.int("p", 0)
         e.assume(lambda: p < dim)
         ind = slice(start, stop, step)
-        n = L_len(e, dim, ind)
-        ne = e.int("neg_empty", 0, 1)
-        e.assume(lambda: (ne == 1) == (((step or 1) < 0) & (n == 0)))
         return dim, ind, p
 
     def run(e, dim, ind, p):
@@ -546,9 +539,6 @@ def mk_parse2(maxdim):
         di, ds = (d0, d1) if order else (d1, d0)
         e.assume(lambda: (i >= -di) & (i < di) & (p < ds))
         e.assume(lambda: (a >= -ds - 1) & (a <= ds + 1) & (b >= -ds - 1) & (b <= ds + 1))
-        n = L_len(e, ds, slice(a, b, step))
-        ne = e.int("neg_empty", 0, 1)
-        e.assume(lambda: (ne == 1) == ((step < 0) & (n == 0)))
         return d0, d1, order, step, i, a, b, p
 
     def run(e, d0, d1, order, step, i, a, b, p):
@@ -585,10 +575,6 @@ def mk_fancy(maxc, others, forms):
         lk = e.choice("listkind", 3)
         form = e.pick("form", forms)
         vmode = e.pick("vmode", ("scalar", "full", "one"))
-        ibl = e.int("int_before_list_full", 0, 1)
-        e.assume(lambda: (ibl == 1) == (la == 1 and other.startswith("int") and vmode == "full" and lk != 0))
-        dmo = e.int("dask_mask_one", 0, 1)
-        e.assume(lambda: (dmo == 1) == (form == "dask_mask" and vmode == "one"))
         return l0, la, other, lk, form, vmode
 
     def run(e, l0, la, other, lk, form, vmode):
